@@ -417,8 +417,19 @@ func xExpr(e xast.Expression) string {
 		}
 		return fmt.Sprintf("(fn %s (%s) %s)", name, xParams(e.Parameters), XStmts(e.Body.Statements))
 	}
+	if c, ok := e.(CustomShaper); ok {
+		return c.XShape(xExpr)
+	}
 	return fmt.Sprintf("(?expr %T)", e)
 }
+
+// CustomShaper is implemented by harness-defined expression nodes (plugin operators in C05).
+type CustomShaper interface {
+	XShape(sub func(xast.Expression) string) string
+}
+
+// XExpr is the shape of one xjs expression.
+func XExpr(e xast.Expression) string { return xExpr(e) }
 
 // GShape parses src with goja (as a function body, so that `return` is legal) and returns the
 // canonical shape. ok=false: rejected by goja (why="reject: ...") or outside the subset.
